@@ -41,7 +41,7 @@ func init() {
 			"oracle: ID is a legal xs:ID in canonical v4 form, equals the rendering of a contiguous 16-byte window of the bytes served with only version/variant bits forced, windows of different IDs do not overlap, nothing is drawn from elsewhere; distinct = shape hash (mode, builders, interleaving signature)",
 		Directed:   c18Directed,
 		Run:        c18Run,
-		MustHit:    []string{"mode=scheduled-builders", "mode=sequential-history", "mode=masked-bytes-enumeration", "mode=short-reads", "mode=real-entropy", "preemption", "kind=AuthnRequest", "kind=LogoutRequest", "kind=LogoutResponse", "two_instances", "enumerated_block_rendered", "documents_kept_then_serialised", "mode=stalled-entropy", "sp_copied_by_value_after_use"},
+		MustHit:    []string{"mode=scheduled-builders", "mode=sequential-history", "mode=masked-bytes-enumeration", "mode=short-reads", "mode=real-entropy", "preemption", "kind=AuthnRequest", "kind=LogoutRequest", "kind=LogoutResponse", "two_instances", "enumerated_block_rendered", "documents_kept_then_serialised", "mode=stalled-entropy", "sp_copied_by_value_after_use", "signer_fails_one_call"},
 		RandomRuns: map[string]int{"quick": 400, "thorough": 10000},
 		Assumptions: []string{"unpredictability is shown as provenance only: every free bit comes unchanged from crypto/rand.Reader; the quality of the OS generator is assumed",
 			"entropy errors are not injected (since Go 1.24 a failing crypto/rand.Reader is fatal by design); only short reads are a legal fault on that seam",
@@ -298,6 +298,18 @@ func c18Run(r *core.Run) {
 		o.EncStyle, o.Cfg.EncStyle = world.KeyField, world.KeyField
 	}
 	o.Cfg.Skew, o.Cfg.Loc = 0, time.UTC
+	// the signing key sits behind a signer that now and then fails one call (remote key service): the build
+	// under way may fail, but whatever is produced around such a hiccup carries identifiers like any other
+	var flaky *world.FaultCtl
+	if mode == "sequential-history" && t.Int(3, "c18.flakysigner") == 1 {
+		flaky = &world.FaultCtl{}
+		o.Cfg.SignerFault = flaky
+		if o.SigStyle == world.KeyNone {
+			o.EncStyle, o.Cfg.EncStyle = world.KeySetter, world.KeySetter
+		} else {
+			o.SigStyle, o.Cfg.SigStyle = world.KeySetter, world.KeySetter
+		}
+	}
 	if !o.Build() {
 		return
 	}
@@ -453,7 +465,22 @@ func c18Run(r *core.Run) {
 				kept = append(kept, keptDoc{d, b + "(kept)"})
 				continue
 			}
+			hiccup := flaky != nil && i%4 == 2
+			if hiccup {
+				flaky.FailNext = 1
+			}
 			id, err := c18Build(sps[(i/3)%2], b)
+			if hiccup {
+				fired := flaky.FailNext == 0
+				flaky.FailNext = 0
+				if fired {
+					r.Fault("signer_fails_one_call")
+					if err != nil {
+						continue // the build under way was refused: nothing was produced
+					}
+					b += "(around-a-signer-hiccup)"
+				}
+			}
 			if err != nil {
 				ctx["err"] = err.Error()
 				r.Fail("produce", "C18/build-failed", ctx)
@@ -587,7 +614,11 @@ func c18Run(r *core.Run) {
 							b = "BuildAuthRequestDocumentNoSig" // keep the phase cheap: no signing
 						}
 					}
-					id, err := c18Build(sps[k%2], b)
+					var id string
+					var err error
+					if g := world.Guard(func() error { id, err = c18Build(sps[k%2], b); return err }); g.Panic != "" {
+						err = fmt.Errorf("panic: %s", g.Panic)
+					}
 					if err != nil {
 						mu.Lock()
 						firstErr = err
